@@ -95,6 +95,12 @@ type interpreter struct {
 	x                  *Explorer              // path exploration state
 	bufs               map[*value]value       // contents of modelled bytes.Buffers
 	steps              int64
+	stepLimit          int64
+	params             map[string]int  // harness parameters (nd.Param)
+	known              map[string]bool // confirmed known findings (nd.Known)
+	obligations        int             // assertion queries asked
+	discharged         int             // ... answered unsat
+	nontrivial         bool            // the current path executed an assertion with a non-constant condition
 	panicStack         string
 	locks              *lockState
 	sched              *sched
@@ -535,7 +541,17 @@ func callSSA(i *interpreter, caller *frame, callpos token.Pos, fn *ssa.Function,
 			return nil // dependency initialisers are not executed
 		}
 		if fn.Pkg != nil && strings.HasPrefix(fn.Pkg.Pkg.Path(), ModulePrefix) {
-			touched[name] = true
+			if _, ok := touched[name]; !ok {
+				n := 0
+				for _, b := range fn.Blocks {
+					n += len(b.Instrs)
+				}
+				file := ""
+				if fn.Pos().IsValid() {
+					file = fn.Prog.Fset.Position(fn.Pos()).Filename
+				}
+				touched[name] = FuncInfo{Name: name, Instrs: n, File: file}
+			}
 		}
 		if ext := externals[name]; ext != nil {
 			if i.mode&EnableTracing != 0 {
@@ -630,6 +646,9 @@ func runFrame(fr *frame) {
 				}
 			}
 			fr.i.steps++
+			if fr.i.stepLimit > 0 && fr.i.steps > fr.i.stepLimit {
+				panic(unsupported("step limit exceeded (unwinding bound)"))
+			}
 			if visitInstr(fr, instr) == kReturn {
 				return
 			}
@@ -697,6 +716,9 @@ func doRecover(caller *frame) value {
 		case string:
 			// The interpreter explicitly called panic().
 			return iface{caller.i.runtimeErrorString, p}
+		case pathInfeasible, pathSkipped, unsupported, abortThread:
+			// engine control flow is not visible to the target program
+			panic(p)
 		default:
 			panic(fmt.Sprintf("unexpected panic type %T in target call to recover()", p))
 		}
